@@ -59,6 +59,7 @@ def enumerate_cases(tier, scope):
         [['pause', None], ['tick', 1]],
         [['tick', 1], ['kill', 'kt']],
         [['tick', 2], ['pause', 'p2'], ['tick', 1], ['kill', 'k2']],
+        [['tick', 1], ['cancel']],
     ]
     # finishes, then its on_finished hook raises: the process ends EXCEPTED with an outcome future that was already resolved
     hookfail = {'steps': [gen.S([['out', 'h', 1]], ['wait', 1, None, None]), gen.S([['out', 'g', 2]], ['value', 6])], 'raise_in_hook': ['on_finished', 'post']}
@@ -254,6 +255,10 @@ def execute(case):
             ex.event(ev)
             if ev[0] != 'tick' and ex.proc.paused and not ex.loop.pending():
                 ex.checkpoint('paused', loader=loader)
+            if ev[0] == 'cancel':
+                # somebody cancelled the outcome future (that is a kill request, carried out by the loop a moment later):
+                # a checkpoint taken right now can be written (what it restores to is not judged)
+                ex.checkpoint('future-cancelled', loader=loader)['save_only'] = True
         ex.drain()
         if ex.proc.paused:
             ex.checkpoint('paused-quiescent', loader=loader)
@@ -269,6 +274,10 @@ def execute(case):
                 n_unsavable += 1
                 continue
             v('save-failed', f"{where}: {ckpt['error']!r}")
+            continue
+        if ckpt.get('save_only'):
+            if 'error' in ckpt:
+                v('save-failed', f"{where}: {ckpt['error']!r}")
             continue
         b1 = ckpt['bundle']
         if _carries(b1, ckpt):
